@@ -351,27 +351,35 @@ fn direct_cases(inst: &Inst, g: &mut SplitMix64, nrandom: usize) -> Option<usize
     ncl
 }
 
+type RunOut = (Vec<bool>, FastOps, usize, usize);
+
 /// (c) single-accept scripts: draw i just below ½, all others above. The harness-side oracle checks
 /// the threshold from both sides: word 2^63 - 1 flips (unless the cluster has weight 0: then not
-/// even word 0 flips), word 2^63 does not.
-fn single_cases(inst: &Inst, ncl: usize, g: &mut SplitMix64) {
+/// even word 0 flips), word 2^63 does not. `runner(script)` applies the real update to the instance
+/// and returns (state, ops, returned count, words drawn); `extra` = draws after the cluster draws.
+fn single_cases_with(
+    inst: &Inst,
+    ncl: usize,
+    extra: usize,
+    tag: &str,
+    g: &mut SplitMix64,
+    runner: &mut dyn FnMut(Vec<u64>) -> Result<RunOut, String>,
+) {
     let before = snap(&inst.man);
     let mut afters = vec![];
     let mut orc: Result<(), String> = Ok(());
     let (mut k_flip, mut k_silent) = (0usize, 0usize);
     for i in 0..ncl {
-        let run = |word: u64, g: &mut SplitMix64| -> Result<(Vec<bool>, FastOps, usize, usize), String> {
-            let mut script = reject_words(g, ncl);
+        let mut run = |word: u64, g: &mut SplitMix64| -> Result<RunOut, String> {
+            let mut script = reject_words(g, ncl + extra);
             script[i] = word;
-            let mut rng = RecRng::scripted(script, 1);
-            let (s, m, r) = run_flip(inst, &mut rng, false)?;
-            Ok((s, m, r, rng.pos))
+            runner(script)
         };
         match run(HALF - 1, g) {
             Ok((s, m, r, pos)) => {
                 let changed = snap(&m) != before || s != inst.state;
-                if r != ncl || pos != ncl {
-                    orc = Err(format!("single-accept {}: count {} draws {} expected {}", i, r, pos, ncl));
+                if r != ncl || pos != ncl + extra {
+                    orc = Err(format!("single-accept {}: count {} draws {} expected {}+{}", i, r, pos, ncl, extra));
                 }
                 let o = Outcome { state: s.clone(), man: m.clone(), ret: r, draws: vec![] };
                 if let Err(e) = oracle(inst, &before, &o, None, false, false) {
@@ -417,9 +425,18 @@ fn single_cases(inst: &Inst, ncl: usize, g: &mut SplitMix64) {
         ncl,
         if afters.is_empty() { String::new() } else { afters.join(" ") }
     );
-    stat(&format!("{}.single.clusters", inst.origin), ncl);
-    stat(&format!("{}.single.weight0", inst.origin), k_silent);
+    stat(&format!("{}.{}.clusters", inst.origin, tag), ncl);
+    stat(&format!("{}.{}.weight0", inst.origin, tag), k_silent);
     emit(ncl > 1, input.trim_end(), &format!("bij {} {}", k_flip, k_silent), Some(orc));
+}
+
+fn single_cases(inst: &Inst, ncl: usize, g: &mut SplitMix64) {
+    let mut runner = |script: Vec<u64>| -> Result<RunOut, String> {
+        let mut rng = RecRng::scripted(script, 1);
+        let (s, m, r) = run_flip(inst, &mut rng, false)?;
+        Ok((s, m, r, rng.pos))
+    };
+    single_cases_with(inst, ncl, 0, "single", g, &mut runner);
 }
 
 // ---------------------------------------------------------------------------------------------
@@ -726,6 +743,111 @@ fn step_case(s: &mut IsingSetup, script: Vec<u64>, g: &mut SplitMix64, all_rejec
     }
 }
 
+/// single-accept scripts through `single_cluster_step` itself (the closure and the 0.5 in
+/// qmc_ising.rs); the free-spin refresh that follows is undone before the comparison.
+fn step_single_cases(s: &IsingSetup, ncl: usize, g: &mut SplitMix64) {
+    let inst = ising_inst(s);
+    let before = snap(&inst.man);
+    let idle: Vec<usize> = (0..inst.nvars).filter(|v| !has_ops(&before, *v)).collect();
+    let st0 = inst.state.clone();
+    let mut runner = |script: Vec<u64>| -> Result<RunOut, String> {
+        let mut gr = s.gr.clone();
+        s.rng.set_script(script);
+        let r = catch(|| gr.single_cluster_step());
+        let log = s.rng.take_log();
+        let r = r?;
+        let mut state = gr.clone_state();
+        for v in &idle {
+            state[*v] = st0[*v];
+        }
+        Ok((state, gr.get_manager_ref().clone(), r, log.len()))
+    };
+    single_cases_with(&inst, ncl, idle.len(), "stepsingle", g, &mut runner);
+}
+
+/// `timestep` duplicates the cluster call of `single_cluster_step` (its own closure and 0.5):
+/// two identical graphs, same script; one runs `timestep`, the other `single_diagonal_step;
+/// single_cluster_step`. The cluster words of the script sit on the thresholds (2^63-1, 2^63, 0, max).
+fn lockstep_case(g: &mut SplitMix64, thorough: bool) {
+    let seed = g.next();
+    let mut g1 = SplitMix64::new(seed);
+    let mut g2 = SplitMix64::new(seed);
+    let (mut a, beta) = ising_graph(&mut g1, thorough);
+    let (mut b, _) = ising_graph(&mut g2, thorough);
+    let mut orc: Result<(), String> = Ok(());
+    let mut desc = String::new();
+    let rounds = if thorough { 12 } else { 6 };
+    for round in 0..rounds {
+        // probe: how many words does the diagonal sweep take from here? (on a clone of b)
+        let d = {
+            let mut probe = b.gr.clone();
+            b.rng.set_script(vec![]);
+            // the probe shares b's rng handle: remember and restore the fallback position
+            let saved = b.rng.0.borrow().clone();
+            probe.single_diagonal_step(beta);
+            let d = b.rng.0.borrow().log.len();
+            *b.rng.0.borrow_mut() = saved;
+            d
+        };
+        let prefix: Vec<u64> = {
+            // the words the sweep will see: the next `d` fallback words
+            let mut f = b.rng.0.borrow().fallback.clone();
+            (0..d).map(|_| f.next()).collect()
+        };
+        let edge_words = [HALF - 1, HALF, 0, u64::MAX, HALF - 1, g.next()];
+        let mut script = prefix;
+        for _ in 0..64 {
+            script.push(*g.pick(&edge_words));
+        }
+        a.rng.set_script(script.clone());
+        b.rng.set_script(script.clone());
+        // keep the fallback streams aligned with what the script replaced
+        for r in [&a.rng, &b.rng] {
+            let mut rr = r.0.borrow_mut();
+            for _ in 0..d {
+                rr.fallback.next();
+            }
+        }
+        let ra = catch(|| {
+            a.gr.timestep(beta);
+        });
+        let rb = catch(|| {
+            b.gr.single_diagonal_step(beta);
+            b.gr.single_cluster_step();
+        });
+        let (la, lb) = (a.rng.take_log(), b.rng.take_log());
+        let same = ra.is_ok()
+            && rb.is_ok()
+            && la == lb
+            && a.gr.clone_state() == b.gr.clone_state()
+            && snap(a.gr.get_manager_ref()) == snap(b.gr.get_manager_ref());
+        desc = format!(
+            "h={} beta={} round={} n={} draws={}",
+            rat(b.gr.get_longitudinal_field()),
+            rat(beta),
+            round,
+            b.gr.get_manager_ref().get_n(),
+            lb.len()
+        );
+        if !same {
+            orc = Err(format!(
+                "timestep and single_diagonal_step;single_cluster_step diverge under the same script ({}): draws {} vs {}, states {} vs {}",
+                desc,
+                la.len(),
+                lb.len(),
+                bits(&a.gr.clone_state()),
+                bits(&b.gr.clone_state())
+            ));
+            break;
+        }
+        if la.len() > script.len() {
+            // fallback words were used beyond the script: re-align is automatic (both consumed equally)
+        }
+    }
+    stat("lockstep.rounds", rounds);
+    emit(true, &format!("lock {} {}", seed, desc.replace(' ', ",")), "same", Some(orc));
+}
+
 fn ising_runs(g: &mut SplitMix64, thorough: bool, ngraphs: usize) {
     for _ in 0..ngraphs {
         let (mut s, beta) = ising_graph(g, thorough);
@@ -750,6 +872,7 @@ fn ising_runs(g: &mut SplitMix64, thorough: bool, ngraphs: usize) {
             if let Some(ncl) = ncl {
                 if ncl <= (if thorough { 60 } else { 24 }) {
                     single_cases(&inst, ncl, g);
+                    step_single_cases(&s, ncl, g);
                 }
             }
             // the real entry point: all-reject, then random (state evolves)
@@ -861,5 +984,8 @@ fn main() {
     if run_eq {
         ising_runs(&mut g, a.thorough, if a.thorough { 150 } else { 30 });
         generic_runs(&mut g, a.thorough, if a.thorough { 60 } else { 12 });
+        for _ in 0..(if a.thorough { 200 } else { 40 }) {
+            lockstep_case(&mut g, a.thorough);
+        }
     }
 }
